@@ -167,6 +167,20 @@ CHECKS = {
         note="Protocol observed on a recorded run over sample isotherms (entry points have no data-dependent accessor calls); depends on "
              "C03 contracts; numerical invariance is bounded (1 isotherm x 7 conversions quick). Known finding: alpha_s reference look-up.",
         technique="call-protocol contracts (recording subclass) + relational symbolic execution for scaling; bounded numeric invariance"),
+    'C05': dict(
+        category='proof',
+        text="Under the stated idealisation (md5 and canonical JSON injective, hash_pandas_object(index=False) a function of values and "
+             "dtypes) the identifier is determined by the document handed to json.dumps and by the digest argument; the real "
+             "isotherm_to_hash is run with recording stand-ins on the three isotherm classes and it is checked, for every kind of "
+             "content field (exhaustive over metadata keys/values, the 7 labels, material name/properties, adsorbate, temperature, model "
+             "name/parameters/ranges/rmse, data values, branch marks), that a change reaches the document or digest argument; that no "
+             "cache or reserved field does; that the digest argument is independent of row labels, int-vs-float columns, filled caches "
+             "and differences below 1e-8; sort_keys at the call site; no hash()/set iteration on the path (static). A bounded stand-in "
+             "compares real identifiers over construction routes, PYTHONHASHSEED values / processes and JSON parse round trips.",
+        design_ref='§3 C05',
+        note="Proof of the glue under the collision-freedom idealisation and the assumed hash_pandas_object contract; values are "
+             "tokens (one representative per field kind); real-identifier clauses are bounded.",
+        technique="contract on the hashed document via recording stubs of md5/json/hash_pandas_object; static determinism scan; bounded real ids"),
 }
 
 NOT_YET = {
